@@ -133,12 +133,98 @@ def run_case(c):
     return res
 
 
+class InjectedFault(Exception):
+    """raised by the harness inside the k-th call of BIOGEME.optimize"""
+
+
+def run_history(c):
+    """History kind 'bootstrap': one BIOGEME object on panel data; estimate(run_bootstrap=True) with a few
+    replicates, optionally interrupted by an exception raised (by the harness) inside the k-th call of
+    optimize (k >= 2: a bootstrap replicate) and caught by the caller; then the SAME object evaluates the
+    log likelihood and simulates.  Formula: log(PanelLikelihoodTrajectory(x + b*y)), y of mixed signs."""
+    n = len(c['ids'])
+    scale = c['scale']
+    if c['dtype'] == 'float':
+        col = np.array([i / scale for i in c['ids']], dtype=np.float64)
+    else:
+        col = np.array(c['ids'], dtype=np.int64)
+    df = pd.DataFrame({'x': np.array(c['x'], dtype=np.float64), 'pid': col,
+                       'y': np.array(c['y'], dtype=np.float64)})
+    d = Database('c09h', df)
+    p = part(lambda: d.panel('pid'))
+    if not p['ok']:
+        return {'panel': p}
+    res = {'panel': {'ok': True}, 'history': True}
+    x, y = Variable('x'), Variable('y')
+    b = Beta('b', 0.0, -2.0, 2.0, 0)
+    traj = PanelLikelihoodTrajectory(x + b * y)
+    formulas = {'loglike': log(traj), 'traj': PanelLikelihoodTrajectory(x + b * y)}
+    b0 = c['beta']
+    state = {}
+
+    def build():
+        np.random.seed(c['np_seed'])
+        B = bio.BIOGEME(d, formulas, parameters=Parameters(), number_of_threads=c['threads'])
+        B.modelName = 'c09h'
+        B.generate_html = False
+        B.generate_pickle = False
+        B.save_iterations = False
+        B.bootstrap_samples = c['bootstrap_samples']
+        state['B'] = B
+        return True
+
+    res['build'] = part(build)
+    if not res['build']['ok']:
+        return res
+    B = state['B']
+    res['ll_before'] = part(lambda: ratio(B.calculate_likelihood([b0], scaled=False)))
+    calls = {'n': 0}
+    original = B.optimize
+
+    def optimize(*a, **k):
+        calls['n'] += 1
+        if c.get('fault_at') and calls['n'] == c['fault_at']:
+            raise InjectedFault(f"fault injected in call {calls['n']} of optimize")
+        return original(*a, **k)
+
+    B.optimize = optimize
+
+    def estimate():
+        try:
+            B.estimate(run_bootstrap=True)
+            return 'completed'
+        except InjectedFault:
+            return 'interrupted'
+        finally:
+            B.optimize = original
+
+    res['estimate'] = part(estimate)
+    res['optimize_calls'] = calls['n']
+    res['ll_after'] = part(lambda: ratio(B.calculate_likelihood([b0], scaled=False)))
+    res['ll_after_scaled'] = part(lambda: ratio(B.calculate_likelihood([b0], scaled=True)))
+    res['lld_after'] = part(lambda: ratio(
+        B.calculate_likelihood_and_derivatives([b0], scaled=False, hessian=False, bhhh=False).function))
+
+    def simulate():
+        out = B.simulate({'b': b0})
+        return {'index': [scaled_int(v, scale) for v in out.index.tolist()],
+                'traj': [ratio(v) for v in out['traj'].tolist()],
+                'loglike': [ratio(v) for v in out['loglike'].tolist()]}
+
+    res['sim_after'] = part(simulate)
+    res['ll_after_sim'] = part(lambda: ratio(B.calculate_likelihood([b0], scaled=False)))
+    res['sample_size'] = part(lambda: int(d.get_sample_size()))
+    res['map'] = part(lambda: [[scaled_int(k, scale), int(a), int(b_)] for k, (a, b_) in
+                               zip(d.individualMap.index.tolist(), d.individualMap.values.tolist())])
+    return res
+
+
 def main():
     cases = json.load(sys.stdin)
     out = []
     for c in cases:
         try:
-            out.append(run_case(c))
+            out.append(run_history(c) if c.get('history') == 'bootstrap' else run_case(c))
         except Exception as e:  # noqa
             out.append({'runner': {'ok': False, 'exc': type(e).__name__, 'msg': str(e)[:300]}})
     print('@@' + json.dumps(out))
